@@ -29,12 +29,14 @@ def gen_key(rng):
     return [S(rng.choice(DBS)), S(rng.choice(SCHEMAS)), S(rng.choice(TABLES))]
 
 
-def gen_hist(rng, profile, n):
+def gen_hist(rng, profile, n, dbs=None):
     h = []
     alive = []
     for _ in range(n):
         r = rng.random()
         k = gen_key(rng)
+        if dbs:
+            k[0] = S(rng.choice(dbs))
         if alive and r < 0.75:
             k = rng.choice(alive)
         if profile == "dom":
@@ -78,6 +80,22 @@ def gen_hist(rng, profile, n):
     return h
 
 
+def with_tx(rng, h):
+    """Put BEGIN ... COMMIT/ROLLBACK brackets around random segments of a history (DB1 only: DB2 is observed through a second connection)."""
+    out, i = [], 0
+    while i < len(h):
+        if rng.random() < 0.35:
+            n = rng.randint(1, 4)
+            out.append([9])
+            out += h[i:i + n]
+            out.append([11] if rng.random() < 0.6 else [10])
+            i += n
+        else:
+            out.append(h[i])
+            i += 1
+    return out
+
+
 def qn(rng, k):
     d, s, t = (unstr(x) for x in k)
     r = rng.random()
@@ -102,6 +120,8 @@ def lit(s):
 
 def render(rng, o):
     k = o[0]
+    if k in (9, 10, 11):
+        return [{9: rng.choice(["begin", "begin transaction"]), 10: "commit", 11: "rollback"}[k]]
     if k == 0:
         cm = f" comment = {lit(unstr(o[4][0]))}" if o[4] else ""
         return [f"create {'or replace ' if o[1] else ''}table {qn(rng, o[2])} ({', '.join(coldef_sql(c) for c in o[3])}){cm}"]
@@ -197,9 +217,17 @@ def main():
          [0, 0, K("T1", "S2"), [vc("B", None)], []], [3, K("T1"), S("last")], [6, K("T1"), S("B"), S("E")], [5, K("T1"), S("D")], [4, K("T1"), ic("D")],
          [7, K("T1"), K("T2")], [0, 0, K("T1"), [vc("E", None)], []]],
     ]
+    # meta_tx_holds_somewhere: the same history with a rolled-back re-creation, a committed tail and a rolled-back DROP
+    fixed.append(fixed[5][:2] + [[9]] + fixed[5][2:4] + [[11], [9]] + fixed[5][2:] + [[10], [9], [1, K("T2")], [11]])
     for i in range(nh + len(fixed)):
         profile = "dom" if i % 3 != 2 else "any"
-        h = fixed[i] if i < len(fixed) else gen_hist(ck.rng, profile, steps)
+        if i < len(fixed):
+            h = fixed[i]
+        elif i % 2:
+            h = with_tx(ck.rng, gen_hist(ck.rng, profile, steps, dbs=["DB1"]))
+            ck.count("with-transactions")
+        else:
+            h = gen_hist(ck.rng, profile, steps)
         ck.count(f"profile:{profile}")
         fs, conn = fsutil.fresh()
         cur = conn.cursor()
@@ -253,7 +281,7 @@ def main():
                 if x[1] != want_c or x[2] != want_d:
                     if in_dom:
                         raise core.MachineryError(f"model: fake answers differ from the declarations inside dom: {x} vs {want_c} {want_d} - contradicts metadata_exact_partial")
-                    kinds = {o[0] for o in h[: j + 1]}
+                    kinds = {o[0] for o in h}   # (a rolled-back step can bring an earlier discrepancy back: classify by the whole history)
                     fid = "C09-clone-loses-lengths" if 8 in kinds else "C09-comment-on-missing-table" if 3 in kinds else None
                     what = f"table {'.'.join(unstr(p) for p in x[0])}: comment {x[1]} / columns {x[2]} but the latest declarations say {want_c} / {want_d}"
                     if fid:
